@@ -9,6 +9,8 @@
 (*   G1  s1 <-- e          GR  e --> s2         GA  sa[i] <-- e in a loop  *)
 (*   GC  c.x <-- e         GT  (t1, _, t2) <-- (e, e, e)                   *)
 (*   GN  anonymous call with named inputs  p <-- e, q <-- e                *)
+(*   GCA cs[i].x <-- e : a port of an element of a component array, in a    *)
+(*       loop (CCA: the constraint on the same port in the same loop)       *)
 (* Constraint items (each mentions the signals listed in Mentions):        *)
 (*   C1, C1b (two different statements mentioning s1), C2 (s2), CA (sa[i]  *)
 (*   in the same loop), CC (c.x), CT (t1), Q (u <== expression with s1),   *)
@@ -23,16 +25,16 @@ EXTENDS Integers, Sequences, FiniteSets, TLC, Json, SequencesExt
 
 CONSTANTS MaxItems
 
-Assigning == {"G1", "GR", "GA", "GC", "GT", "GN"}
-Constraining == {"C1", "C1b", "C2", "CA", "CC", "CT", "Q", "QR", "C0", "CN1", "CN2"}
+Assigning == {"G1", "GR", "GA", "GC", "GT", "GN", "GCA"}
+Constraining == {"C1", "C1b", "C2", "CA", "CC", "CT", "Q", "QR", "C0", "CN1", "CN2", "CCA"}
 Items == Assigning \cup Constraining
 \* the signals (with access text) an assigning item assigns with `<--`
 Assigns == [i \in Assigning |->
-  CASE i = "G1" -> {"s1"} [] i = "GR" -> {"s2"} [] i = "GA" -> {"sa[i]"} [] i = "GC" -> {"c.x"} [] i = "GT" -> {"t1", "t2"} [] i = "GN" -> {"p", "q"}]
+  CASE i = "G1" -> {"s1"} [] i = "GR" -> {"s2"} [] i = "GA" -> {"sa[i]"} [] i = "GC" -> {"c.x"} [] i = "GT" -> {"t1", "t2"} [] i = "GN" -> {"p", "q"} [] i = "GCA" -> {"cs[i].x"}]
 Mentions == [i \in Constraining |->
   CASE i = "C1" -> {"s1"} [] i = "C1b" -> {"s1"} [] i = "C2" -> {"s2"} [] i = "CA" -> {"sa[i]"} [] i = "CC" -> {"c.x"} [] i = "CT" -> {"t1"}
     [] i = "Q" -> {"s1"} [] i = "QR" -> {"s2"} [] i = "C0" -> {}
-    [] i = "CN1" -> {"s1"} [] i = "CN2" -> {"s1"}]      \* anonymous call with two `<==` inputs, s1 as first / second input
+    [] i = "CN1" -> {"s1"} [] i = "CN2" -> {"s1"} [] i = "CCA" -> {"cs[i].x"}]      \* anonymous call with two `<==` inputs, s1 as first / second input
 
 VARIABLE prog        \* [items, nest ("none" / "if" / "loop"), rhs ("q": quadratic right-hand sides, "nq": non-quadratic), kind]
 Init == prog \in [items : {S \in SUBSET Items : Cardinality(S) <= MaxItems /\ S \cap Assigning # {}},
